@@ -1,13 +1,14 @@
 import os
 import vf
 
-FILES = ["web/zz_verif_c36_test.go", "web/zz_verif_c36gen_test.go"]
+FILES = ["web/zz_verif_c36_test.go", "web/zz_verif_c36gen_test.go", "web/zz_verif_c36routes_test.go", "web/zz_verif_c36resp_test.go"]
 
 SPEC = dict(
     level="proof",
     harness=dict(pkg_dir="web", run="TestVerifC36$", files=FILES, n_quick=140, n_thorough=1500),
-    runner=dict(imports=["From Coq Require Import String.", "From ZV Require Import Lib.Base Model.Web."], case_type="c36case",
-                mismatch_fn="c36_mismatches", shard=150),
+    runner=dict(imports=["From Coq Require Import String.", "From ZV Require Import Lib.Base Model.Web Model.WebResp Model.WebRun."],
+                case_type="c36xcase", mismatch_fn="c36x_mismatches", shard=150),
+    extra_targets=("Model/WebRun.vo",),
     rule="A: 1-3 generated file matches x 0-3 line matches (line 0-12 bytes over an alphabet with markup, quotes, newline, invalid "
          "UTF-8; 0-4 bytes of spare capacity behind the line; fragments 72% sorted/non-overlapping/in-line, else random offsets "
          "-2..len+6 and lengths -1..5; sub-repository path a directory prefix / not a prefix / longer than the name; repeated "
@@ -16,7 +17,8 @@ SPEC = dict(
          "corpus pairs (contents, file names, languages, repo/branch names, repo URLs, file/commit/line-fragment URL templates and the "
          "query are payloads) served by the real web.Server in-process: results, repo list, search box, print, rejected query; "
          "responses tokenised by x/net/html; D: shards built by ShardBuilder with a sub-repository path longer than the file name. "
-         "non-trivial = A: >= 2 fragments or a panic; B: the escaper changed the string; C: every page / snippet with > 3 tags.",
+         "non-trivial = A: >= 2 fragments or a panic; B: the escaper changed the string; C: every page / snippet with > 3 tags; "
+         "E: every response; a sniffed type other than text/plain / octet-stream.",
     trusted_base=["html/template's contextual analysis: which escaper is applied at which template position is read off the parse trees "
                   "after html/template rewrote them (translator), not modelled; that the escapers behave as Model/Web.v:esc on plain "
                   "strings is validated by the correspondence (part B) only",
@@ -25,6 +27,13 @@ SPEC = dict(
                   "parsing is represented by that tokenizer",
                   "translator harness/overlay/web/zz_verif_c36gen_test.go (go/types walk of the Execute data types, Funcmap result "
                   "types, URL-attribute heuristics) and the correspondence harness/oracle harness/overlay/web/zz_verif_c36_test.go",
+                  "response classes: the user agent is the ASSUMPTION Model/WebResp.v:browser_markup (B1-B4: markup types are parsed as "
+                  "markup, text/plain+nosniff and non-markup types never, text/plain without nosniff or no type is sniffed); that "
+                  "Model/WebResp.v:detect equals http.DetectContentType (table generated from $GOROOT/src/net/http/sniff.go, matching "
+                  "functions hand-modelled) and that net/http sniffs the first chunk when no type is set is validated by part E only",
+                  "translator harness/overlay/web/zz_verif_c36routes_test.go (go/ast + go/types: mux registrations, response sinks "
+                  "with syntactically dominating header operations, ResponseWriter followed through calls into zoekt packages; a "
+                  "ResponseWriter stored in a struct or captured by an external library is not followed)",
                   "Go int arithmetic on LineOffset+MatchLength modelled in Z (no 64-bit overflow); methods callable from templates on "
                   "data values (time.Time.Format) are not walked by the sinks translator",
                   "Lib/RuneCount.v rune_width as utf8.DecodeRune's width (used by esc_nospace only)"],
@@ -37,7 +46,7 @@ def _gen(ctx):
     g = vf.go_harness(ctx, "web", "TestVerifC36Gen$", FILES, 1, out_name="gen.jsonl", timeout=600)
     texts = {r["file"]: r["text"] for r in g["records"] if r.get("kind") == "gen"}
     gen_dir = os.path.join(vf.COQ, "Generated")
-    ok = g["rc"] == 0 and "WebPages.v" in texts and "WebSinks.v" in texts
+    ok = g["rc"] == 0 and "WebPages.v" in texts and "WebSinks.v" in texts and "WebRoutes.v" in texts
     if not ok:
         # make the obligations fail loudly instead of silently re-using stale tables
         ctx.notes.append("translator failed: " + g["log"][-1500:])
@@ -51,6 +60,10 @@ def _gen(ctx):
                           "Definition sinks : list (string * string * tykind) := [(\"translator failed\", \"\", TOther)].\n"
                           "Definition funcmap_results : list (string * string * tykind) := [].\n"
                           "Definition url_slots : list (string * string * bool * bool) := [].\n",
+            "WebRoutes.v": "(* translator failed *)\nFrom Coq Require Import String.\nFrom ZV Require Import Lib.Base Model.Web Model.WebResp.\n"
+                           "Definition routes : list route := [{| rt_pat := \"translator-failed\"; rt_handler := \"\"; rt_guard := \"\" |}].\n"
+                           "Definition resp_sinks : list rsink := [].\n"
+                           "Definition sniff_sigs : list sniffsig := [SUnknownSig \"translator failed\"].\n",
         }
     for name, text in texts.items():
         vf.write_if_changed(os.path.join(gen_dir, name), text)
@@ -61,5 +74,5 @@ def run(ctx):
     ok, g = _gen(ctx)
     rc = vf.standard_check(ctx, SPEC)
     if not ok:
-        print("note: the C36 translator failed (obligations over Generated/WebPages.v, WebSinks.v were made to fail): " + g["log"][-600:])
+        print("note: the C36 translator failed (obligations over Generated/WebPages.v, WebSinks.v, WebRoutes.v were made to fail): " + g["log"][-600:])
     return rc
